@@ -103,6 +103,11 @@ func classifyTyped(typed string, v gval) string {
 		return classifyBool(v)
 	case "uint", "fmtver":
 		return classifyInt(v)
+	case "refspec":
+		if !strings.Contains(v.S, ":") {
+			return "refspec-without-colon"
+		}
+		return "refspec-with-colon"
 	case "rebase":
 		switch v.S {
 		case "true", "false", "interactive":
